@@ -164,6 +164,9 @@ class SkelTr:
         if isinstance(e, ast.Compare) and len(e.ops) == 1 and isinstance(e.comparators[0], ast.Constant) \
                 and e.comparators[0].value is None and isinstance(e.ops[0], (ast.Is, ast.IsNot)):
             a = self.self_attr(e.left)
+            if a in self.spec.get("opt_state", {}):
+                fld = self.spec["opt_state"][a]
+                return f"(!(← get).{fld})" if isinstance(e.ops[0], ast.Is) else f"(← get).{fld}"
             flag = self.spec.get("flags", {}).get(a or "")
             if flag is None:
                 raise Untranslatable(f"`is None` test on {ast.unparse(e.left)}")
@@ -270,6 +273,12 @@ class SkelTr:
         if isinstance(s, ast.Assign) and len(s.targets) == 1:
             t = s.targets[0]
             a0 = self.self_attr(t)
+            if a0 is not None and a0 in self.spec.get("opt_state", {}):
+                # an optional attribute given a value (`None` -> something): only its presence is state
+                fld = self.spec["opt_state"][a0]
+                isnone = isinstance(s.value, ast.Constant) and s.value.value is None
+                pre = [f"{ind}call {self.q(n)}"] if (n := self.collab_call(s.value)) is not None else []
+                return pre + [f"{ind}modify fun w => {{ w with {fld} := {'false' if isnone else 'true'} }}"]
             if a0 is not None and a0 in self.spec.get("nat_state", {}):
                 f = self.spec["nat_state"][a0]
                 return [f"{ind}modify fun w => {{ w with {f} := {self.nexpr(s.value)} }}"]
@@ -515,6 +524,14 @@ TRAINING_TICK_SPEC = dict(
     modules={"time"}, skip={"_logger"},
     len_fields={"_trainers": "nTrainers"}, nat_state={"_current_trainer_index": "cursor"},
     indexed={"_trainers_items": "trainers_items"},
+)
+
+INFERENCE_TICK_SPEC = dict(
+    rel="thread/threads/inference.py", cls="InferenceThread",
+    bases=[("thread/threads/base.py", "BackgroundThread"), ("thread/threads/base.py", "Thread"),
+           ("thread/thread_control.py", "ThreadEventMixin")],
+    collaborators={"_tick_times", "_interaction", "_log_tick_time_scheduler"}, modules={"time"}, skip={"_logger"},
+    opt_state={"_tick_start": "tickStart"},
 )
 
 STATS_SPEC = dict(
